@@ -263,6 +263,11 @@ func TestVerifC13CrashPoints(t *testing.T) {
 		}
 		thr := rapid.IntRange(2, 3).Draw(rt, "t")
 		desc := fmt.Sprintf("%s nut=%d(leader=%v) t=%d reshare=%v seed=%d", scheme, nutIdx, nutIdx == 0, thr, withReshare, seed)
+		wd := time.AfterFunc(10*time.Minute, func() {
+			fmt.Fprintf(os.Stderr, "HARNESS-ABORT: C13 case still running after 10 minutes (%s)\n", desc)
+			os.Exit(3)
+		})
+		defer wd.Stop()
 		c, err := newCCluster(3, seed, scheme)
 		if err != nil {
 			rt.Fatalf("cluster: %v", err)
@@ -346,7 +351,9 @@ func TestVerifC13CrashPoints(t *testing.T) {
 		verifhook.Set(nil)
 		c.close()
 		if scriptErr != nil {
-			rt.Fatalf("harness: script failed: %v (%s)", scriptErr, desc)
+			// not an oracle verdict and not worth shrinking (every attempt costs a cluster): the driver reports exit 2
+			fmt.Fprintf(os.Stderr, "HARNESS-ABORT: C13 script failed: %v (%s)\n", scriptErr, desc)
+			os.Exit(3)
 		}
 		// ---- examine the images ----
 		sch := fx.Scheme(scheme)
